@@ -236,7 +236,16 @@ def pushInitLoop : Loop :=
     accs := [.load "rev_indptr" (.own 0), .load "rev_indptr" (.own 1), .call "range" true,
              .load "rev_indices" (.indirect "j"), .load "degrees" (.indirect "neighbor"),
              .load "residuals" (.own 0), .store "residuals" (.own 0), .load "seeds" (.own 0),
+             .load "residuals" (.own 0), .store "residuals" (.own 0),
              .priv "j", .priv "j1", .priv "j2", .priv "neighbor"] }
+
+/-- the `prange` loop of `count_triangles_from_dag` as generated on the pinned tree: no store at all, one exact
+    reduction -/
+def trianglesLoop : Loop :=
+  { name := "topology/triangles.pyx:count_triangles_from_dag#0", var := "node", schedule := "static-default",
+    accs := [.load "indptr" (.indirect "argument of count_local_triangles_from_dag"),
+             .load "indices" (.indirect "argument of count_local_triangles_from_dag"),
+             .call "count_local_triangles_from_dag" true, .reduction "n_triangles" "+" true] }
 
 /-- D-iteration's sweep as generated on the pinned tree -/
 def diterationLoop : Loop :=
@@ -256,7 +265,7 @@ def pushNeighborLoop : Loop :=
              .store "residuals" (.indirect "neighbor"), .load "residuals" (.indirect "neighbor"),
              .method "worklist" "push" true, .priv "neighbor", .priv "tmp"] }
 
-def pinnedLoops : List Loop := [pushInitLoop, diterationLoop, pushNeighborLoop]
+def pinnedLoops : List Loop := [pushInitLoop, diterationLoop, pushNeighborLoop, trianglesLoop]
 
 /-! ### the first `prange` loop of `push_pagerank`, event for event
 
